@@ -14,7 +14,9 @@ use std::sync::atomic::{AtomicU64, Ordering};
 pub fn c08_case(hid: Hid, params: &[Param], seed: &[u8]) -> Vec<Viol> {
     let m = Model::new(hid);
     let mut v = vec![];
-    let want = m.keygen(params, seed);
+    // a 33-byte "seed" (0xfe || 32 bytes) asks the wrapper to go through Seed::from([u8; 32]); the
+    // key pair must depend on the first n bytes only
+    let want = if seed.len() == 33 { m.keygen(params, &seed[1..1 + hid.n()]) } else { m.keygen(params, seed) };
     match (lib_api::keygen(hid, params, seed, None), want) {
         (Res::Ok(o), Ok((sk, pk))) => {
             if o.sk != sk {
@@ -187,6 +189,13 @@ pub fn run_c08(ctx: &Ctx) -> (&'static str, Map<String, Value>) {
         }
         for k in 0..if th { 64 } else { 8 } {
             cases.push((h, vec![p(2, 2)], det_bytes(ctx.seed, &format!("c08seed:{}", k), n)));
+        }
+        // seeds constructed through Seed::from([u8; 32]) with non-zero bytes beyond the output length
+        for k in 0..4 {
+            let mut s33 = vec![0xfeu8];
+            s33.extend(det_bytes(ctx.seed, &format!("c08seed32:{}", k), 32).iter().map(|b| b | 1));
+            cases.push((h, cheap.clone(), s33.clone()));
+            cases.push((h, vec![p(8, 2)], s33));
         }
     }
     let total = cases.len() as u64;
@@ -433,6 +442,10 @@ pub fn run_c11(ctx: &Ctx) -> (&'static str, Map<String, Value>) {
     for c in cases.iter().step_by((cases.len() / 5).max(1)).take(5) {
         ctx.sample(|| json!(c));
     }
+    // parameter lists around the 65535-byte signature limit (well-formed keys): no panic, no callback without a signature
+    let fam = crate::props_life::length_boundary_cfgs(ctx, vec![]);
+    let fam_n = fam.len();
+    let (fam_agg, _) = crate::props_life::run_lattice(ctx, fam);
     ctx.assume("blobs that decode to trees with h >= 15 or more than 3000 leaves in total are only parsed by the model, not executed (listed as skipped by construction: the enumerated blobs keep other parameter bytes at the 4-leaf code)");
     let mut m = Map::new();
     m.insert("evaluations".into(), json!(total));
@@ -441,6 +454,8 @@ pub fn run_c11(ctx: &Ctx) -> (&'static str, Map<String, Value>) {
     m.insert("transitions".into(), json!(total));
     m.insert("traces_validated_against_impl".into(), json!(total));
     m.insert("outcome_classes".into(), json!(*classes.lock().unwrap()));
+    m.insert("signature_length_boundary_configurations".into(), json!(fam_n));
+    m.insert("signature_length_boundary_transitions".into(), json!(fam_agg.transitions.load(std::sync::atomic::Ordering::Relaxed)));
     m.insert("rule".into(), json!("storage-corruption space, each finite dimension enumerated completely: parameter-list lengths 0..10; key length 0..64; all 256 values of each of the 8 parameter bytes; boundary counters; zero/wiped/0xff blobs; keygen aux lengths 0..header+6 x fills; sign aux lengths 0..header+2 x {valid prefix, zero, 0xff}; every single-byte corruption of the level word; x {sign bytes API, SigningKey}; each distinct input is executed on the real code and compared with the model's expectation (Err, or the correct result)"));
     m.insert("exhaustive".into(), json!(true));
     ("fault_enumeration", m)
@@ -499,8 +514,23 @@ pub fn c16_probe(hid: Hid, ty: &str, trigger_drop: bool) -> Vec<Viol> {
                 s.as_mut_slice().copy_from_slice(&secret);
                 s
             };
+            // a seed built through the public Seed::from([u8; 32]): all 32 caller-supplied bytes live in
+            // the value, also for shorter hashes
+            let full: Vec<u8> = (0..32u8).map(|i| 0x41u8.wrapping_add(i.wrapping_mul(5)) | 1).collect();
+            let mk_seed32 = || {
+                let mut a = [0u8; 32];
+                a.copy_from_slice(&full);
+                vh::Seed::<H>::from(a)
+            };
             Ok(match ty {
                 "Seed" => wipe_probe(mk_seed, &secret, trigger_drop),
+                "Seed::from([u8;32])" => wipe_probe(mk_seed32, &full, trigger_drop),
+                "SeedAndLmsTreeIdentifier(Seed::from)" => wipe_probe(|| vh::SeedAndLmsTreeIdentifier::<H>::new(&mk_seed32(), &[0x3cu8; 16]), &full[..n], trigger_drop),
+                "ReferenceImplPrivateKey::generate(Seed::from)" => wipe_probe(
+                    || vh::ReferenceImplPrivateKey::<H>::generate(&[hbs_lms::HssParameter::<H>::new(hbs_lms::LmotsAlgorithm::LmotsW4, hbs_lms::LmsAlgorithm::LmsH5)], &mk_seed32()).unwrap(),
+                    &full,
+                    trigger_drop,
+                ),
                 "SeedAndLmsTreeIdentifier" => wipe_probe(|| vh::SeedAndLmsTreeIdentifier::<H>::new(&mk_seed(), &[0x3cu8; 16]), &secret, trigger_drop),
                 "ReferenceImplPrivateKey" => wipe_probe(
                     || {
@@ -559,7 +589,7 @@ pub fn c16_replay(case: &Value) -> Result<Vec<Viol>, String> {
     Ok(c16_probe(hid, case["type"].as_str().unwrap_or(""), case["drop"].as_bool().unwrap_or(true)))
 }
 
-pub const C16_TYPES: [&str; 5] = ["Seed", "SeedAndLmsTreeIdentifier", "ReferenceImplPrivateKey", "LmsPrivateKey", "LmotsPrivateKey"];
+pub const C16_TYPES: [&str; 8] = ["Seed", "SeedAndLmsTreeIdentifier", "ReferenceImplPrivateKey", "LmsPrivateKey", "LmotsPrivateKey", "Seed::from([u8;32])", "SeedAndLmsTreeIdentifier(Seed::from)", "ReferenceImplPrivateKey::generate(Seed::from)"];
 
 pub fn run_c16(ctx: &Ctx) -> (&'static str, Map<String, Value>) {
     let mut evals = 0u64;
